@@ -300,8 +300,14 @@ func genContent(rt *rapid.T) c11Content {
 	switch gen.Pick(rt, "content-kind", 10, 10, 35, 25, 20) {
 	case 0:
 		c := c11Content{Kind: "text"}
-		switch gen.Pick(rt, "text-kind", 10, 50, 20, 10, 10) {
+		switch gen.Pick(rt, "text-kind", 10, 50, 20, 10, 10, 20) {
 		case 0:
+		case 5: // text that is itself an encoded content body: starts with a kind tag (once or repeated), e.g. a text
+			// that is the signed body of another Text request
+			for n := gen.Range(rt, "nest-depth", 1, 3); n > 0; n-- {
+				c.Text = append(c.Text, ref.SelectorTag(gen.OneOf(rt, "nest-kind", ref.KindText, ref.KindText, ref.KindTransition, ref.KindProto, ref.KindTickABI))...)
+			}
+			c.Text = append(c.Text, rapid.SliceOfN(rapid.Byte(), 0, 40).Draw(rt, "text")...)
 		case 1:
 			c.Text = rapid.SliceOfN(rapid.Byte(), 1, 64).Draw(rt, "text")
 		case 2: // text that imitates another content: starts with some selector and tag
